@@ -56,13 +56,14 @@ def parse_params(
     argnum = -1
     # Iterate over function's params.
     for param_name in signature.parameters:
+        # Increment argument numbers. This is
+        # for positional arguments. Parameters without
+        # annotations occupy a position too.
+        argnum += 1
         # If parameter doesn't have an annotation.
         annot = type_hints.get(param_name)
         if annot is None:
             continue
-        # Increment argument numbers. This is
-        # for positional arguments.
-        argnum += 1
         # Value from incoming message.
         value = None
         logger.debug("Trying to parse %s as %s", param_name, annot)
